@@ -100,13 +100,15 @@ def check_case(ctx: Ctx, name: str, case: dict, model: List[str]) -> bool:
 
 
 # ---------------------------------------------------------------------------------------------------- environment level
-def env_trajectory(ctx: Ctx, rel: str, cfg: dict, rng: Rng, episodes: int, steps: int, want_truth: bool = False) -> dict:
+def env_trajectory(ctx: Ctx, rel: str, cfg: dict, rng: Rng, episodes: int, steps: int, want_truth: bool = False, chaos=None) -> dict:
     """Run the real environment; collect, per agent with an observation space, the model lines and the implementation's answers."""
     import gymnasium
     import numpy as np
     env = rig.make_env(cfg)
     tracks: Dict[str, dict] = {}
     oracle_fail: List[dict] = []
+    seen_visible: Dict[tuple, int] = {}
+    incoherent: List[dict] = []
 
     def snapshot(tag: str, ep: int, step: int, env_obs):
         game = env.game
@@ -114,6 +116,15 @@ def env_trajectory(ctx: Ctx, rel: str, cfg: dict, rng: Rng, episodes: int, steps
         toks, pairs = rig.state_tokens(state)
         fb = rig.float_boundary(pairs)
         ttoks = rig.truth_tokens(game.simulation) if want_truth else None
+        if want_truth:
+            for node in game.simulation.network.nodes.values():
+                for f in node.file_system.folders.values():
+                    key = (ep, node.config.hostname, f.name)
+                    prev = seen_visible.get(key, 0)
+                    cur_v = f.visible_health_status.value
+                    if cur_v != prev and not f._scanned_this_step and node.operating_state.value == 1:
+                        incoherent.append({"scenario": rel, "episode": ep, "step": step, "folder": f"{node.config.hostname}/{f.name}", "visible": [prev, cur_v]})
+                    seen_visible[key] = cur_v
         for name, agent in rig.agents_with_obs(game):
             tr = tracks[f"{ep}:{name}"]
             cur = agent.observation_manager.current_observation
@@ -159,13 +170,15 @@ def env_trajectory(ctx: Ctx, rel: str, cfg: dict, rng: Rng, episodes: int, steps
             if t % 7 == 0:
                 burst = rng.below(n)
             act = burst if rng.chance(1, 2) else rng.below(n)
+            if chaos is not None:
+                chaos(env.game, rng)
             obs, _r, _te, trunc, _info = env.step(act)
             ctx.count("env:steps")
             snapshot("step", ep, t + 1, obs)
             if trunc:
                 break
     env.close()
-    return {"tracks": tracks, "oracle_fail": oracle_fail}
+    return {"tracks": tracks, "oracle_fail": oracle_fail, "incoherent": incoherent}
 
 
 def check_env(ctx: Ctx, rel: str, res: dict, model_by_track: Dict[str, List[str]], spec_mode: bool = False) -> bool:
